@@ -85,6 +85,8 @@ def run(ck, a):
             goals.append(z3.BoolVal(False) if isinstance(e, bool) else ab.formula(e))
         ck.add(Ob('vmap-transparent/%s/member%d (%d cells not syntactically identical)' % (tag, i, ndiff), [], z3.And(goals) if goals else True, timeout=120, meta={'tag': tag}))
       # mutation twin: member 0 of the batched result is NOT the solo result of member 1 (the comparison is not blind)
+      if pname != 'spring':
+        continue
       ab2 = Abstractor(keep=30)
       sw = [ab2.formula(lift(xc) == lift(yc)) for xc, yc in zip(np.asarray(ob[5][0], dtype=object).reshape(-1), np.asarray(solo[1][5], dtype=object).reshape(-1))]
       ck.add(Ob('twin/member0-is-not-member1/%s' % tag, [z3.Not(z3.And(sw))], None, expect='sat', timeout=30))
@@ -127,6 +129,11 @@ def run(ck, a):
                 expect='sat', timeout=30))
 
   # ---------------- domain randomisation wrapper vs a solo environment built from the member's system
+  import signal
+  def _alarm(signum, frame):
+    raise TimeoutError('domain randomisation harness exceeded its 300 s cap')
+  signal.signal(signal.SIGALRM, _alarm)
+  signal.alarm(300)
   try:
     env = envs.get_environment('inverted_pendulum', backend='spring')
     base_sys = env.unwrapped.sys
@@ -167,8 +174,10 @@ def run(ck, a):
             continue
           goals.append(z3.BoolVal(False) if isinstance(e, bool) else ab.formula(e))
       ck.add(Ob('domain-randomisation/member%d equals the solo environment built from its system' % i, [], z3.And(goals) if goals else True, timeout=120, meta={'tag': 'dr', 'member': i}))
-  except (core.SXUnsupported, ZeroDivisionError, ValueError, AssertionError, TypeError) as e_:
+  except (core.SXUnsupported, ZeroDivisionError, ValueError, AssertionError, TypeError, TimeoutError) as e_:
     ck.harness_error('domain randomisation harness: %r' % (e_,))
+  finally:
+    signal.alarm(0)
 
   def rep(ob):
     tag = ob.meta['tag']
